@@ -89,15 +89,8 @@ theorem response_agree (ext : List Nat → Bool) (st : Int) (hs : List (List Nat
     exact ⟨status_facts.1, status_facts.2, fun b hb => digit_value b (List.all_eq_true.mp f2 b hb)⟩
   have hR := responseRegular_ok st hs clv hv
   have wf : WellFormed false lim ([(nStatus, fmtNat st.toNat)] ++ responseRegular hs) :=
-    wf_of_parts false lim _ _ clv hP1 (by simp) hR ⟨hv.clv.1, hv.clv.2.1⟩ hlim
-  have hfit : ClFits ([(nStatus, fmtNat st.toNat)] ++ responseRegular hs) := by
-    intro f hf hn
-    rcases List.mem_append.mp hf with hf | hf
-    · exact absurd hn (pseudo_not_cl _ (hP1 f hf).1)
-    · rcases hR f hf with h | ⟨_, h⟩
-      · exact absurd hn h.2.2.2.2.2.2
-      · rw [h]; exact hv.clv.2.2
-  obtain ⟨h, hp⟩ := accept_complete_of_wf ext false lim _ wf hfit
+    wf_of_parts false lim _ _ clv hP1 (by simp) hR ⟨hv.clv.1, hv.clv.2.1⟩ hv.clv.2.2 hlim
+  obtain ⟨h, hp⟩ := accept_complete_of_wf ext false lim _ wf
   refine ⟨wf, ?_⟩
   obtain ⟨_, _, _, _, _, vst⟩ := parse_pseudo_values ext false lim _ false h hp
   have hstatus : h.status = fmtNat st.toNat := by
